@@ -364,6 +364,62 @@ M('C01', 'canon-fast-path-polarity', PGP, _CANON,
 M('C01', 'canon-fast-path-short-text', PGP, _CANON,
   "            if len(subject) < 64 or b'\\n' not in subject:\n                _data += subject\n\n            else:\n                _data += re.subn(br'\\r?\\n', b'\\r\\n', subject)[0]\n", 'C01.1')
 
+# ---- sixth round (wave 5): helper for the packet body, area helper in __setitem__, codec parameter of the text helpers,
+#      skipped pairs, dropped attribute subpackets, running verdict flag, NotImplemented keyed on the claimed algorithm
+TW('C01', 'twin-C01-ref14', 'C01-ref14')
+TW('C01', 'twin-C05-ref14', 'C05-ref14')
+TW('C01', 'twin-C11-ref15', 'C11-ref15')
+_BODY_OLD = "        return pub.__bytearray__()[len(pub.header):]\n"
+_BODY_NEW = "        return pub.__bodybytearray__()\n"
+_HLEN = "    def update_hlen(self):\n        self.header.length = len(self.__bytearray__()) - len(self.header)\n"
+T('C01', 'twin-body-helper', PGP, _BODY_OLD, _BODY_NEW, more=[(PT, _HLEN, "    def __bodybytearray__(self):\n        return self.__bytearray__()[len(self.header):]\n\n" + _HLEN)])
+M('C01', 'body-helper-keeps-last-header-octet', PGP, _BODY_OLD, _BODY_NEW, 'C01.1b',
+  more=[(PT, _HLEN, "    def __bodybytearray__(self):\n        return self.__bytearray__()[len(self.header) - 1:]\n\n" + _HLEN)])
+M('C01', 'body-helper-whole-packet', PGP, _BODY_OLD, _BODY_NEW, 'C01.1b',
+  more=[(PT, _HLEN, "    def __bodybytearray__(self):\n        return self.__bytearray__()\n\n" + _HLEN)])
+_SETITEM = "        d = self._unhashed_sp\n        if key.startswith('h_'):\n            d, key = self._hashed_sp, key[2:]\n            self._hashed_raw = None\n"
+T('C01', 'twin-setitem-area-identity', FL, _SETITEM, "        d = self._unhashed_sp\n        if key.startswith('h_'):\n            d, key = self._hashed_sp, key[2:]\n        if d is self._hashed_sp:\n            self._hashed_raw = None\n")
+M('C01', 'setitem-invalidates-on-unhashed-area', FL, _SETITEM, "        d = self._unhashed_sp\n        if key.startswith('h_'):\n            d, key = self._hashed_sp, key[2:]\n        if d is self._unhashed_sp:\n            self._hashed_raw = None\n", 'C01.6')
+M('C01', 'setitem-invalidation-identity-inverted', FL, _SETITEM, "        d = self._unhashed_sp\n        if key.startswith('h_'):\n            d, key = self._hashed_sp, key[2:]\n        if d is not self._hashed_sp:\n            self._hashed_raw = None\n", 'C01.6')
+_B2T = "    def bytes_to_text(text):\n        if text is None or isinstance(text, str):\n            return text\n\n        return text.decode('utf-8')\n"
+_B2T_P = "    def bytes_to_text(text, encoding='utf-8'):\n        if text is None or isinstance(text, str):\n            return text\n\n        return text.decode(encoding)\n"
+_MSG = "            return self.bytes_to_text(self._message)\n"
+T('C01', 'twin-text-helper-codec-parameter', TY, _B2T, _B2T_P, more=[(PGP, _MSG, "            return self.bytes_to_text(self._message, encoding='utf-8')\n")])
+M('C01', 'text-helper-called-with-utf16', TY, _B2T, _B2T_P, 'C01.7', more=[(PGP, _MSG, "            return self.bytes_to_text(self._message, encoding='utf-16')\n")])
+M('C01', 'text-helper-default-codec-lossy', TY, _B2T, _B2T_P.replace("encoding='utf-8'", "encoding='utf-7'"), 'C01.7')
+M('C01', 'text-helper-errors-parameter-replace', TY, _B2T, "    def bytes_to_text(text, errors='replace'):\n        if text is None or isinstance(text, str):\n            return text\n\n        return text.decode('utf-8', errors)\n", 'C01.7')
+_VERIFY_CALL = "                    verified = self._key.verify(sig.hashdata(subj), sig.__sig__, getattr(hashes, sig.hash_algorithm.name)())\n"
+for _p, _r in (('C01', 'C01.2'), ('C17', 'C17.3')):
+    M(_p, 'unknown-hash-algorithm-skipped', PGP, _VERIFY_CALL,
+      "                    try:\n                        hasher = getattr(hashes, sig.hash_algorithm.name)()\n                    except AttributeError:\n                        continue\n                    verified = self._key.verify(sig.hashdata(subj), sig.__sig__, hasher)\n", _r)
+    M(_p, 'foreign-signer-skipped-in-loop', PGP, "        for sig, subj in sspairs:\n", "        for sig, subj in sspairs:\n            if sig.signer is None:\n                continue\n", _r)
+_UA_PARSE = "        sp = UserAttribute(packet)\n        self[sp.__class__.__name__] = sp\n"
+_UA_BA = "    _spmodule = userattribute\n\n    def __bytearray__(self):\n        _bytes = bytearray()\n        for uhsp in self._unhashed_sp.values():\n            _bytes += uhsp.__bytearray__()\n"
+T('C01', 'twin-ua-parse-name-local', FL, _UA_PARSE, "        attribute = UserAttribute(packet)\n        name = type(attribute).__name__\n        self[name] = attribute\n")
+M('C01', 'ua-unknown-subpacket-dropped', FL, _UA_PARSE, "        sp = UserAttribute(packet)\n        if sp.__class__.__name__ == 'Opaque':\n            return\n        self[sp.__class__.__name__] = sp\n", 'C01.8')
+M('C01', 'ua-subpacket-kept-only-if-image', FL, _UA_PARSE, "        sp = UserAttribute(packet)\n        if isinstance(sp, userattribute.Image):\n            self[sp.__class__.__name__] = sp\n", 'C01.8')
+M('C01', 'ua-serialiser-skips-opaque', FL, _UA_BA, _UA_BA.replace("            _bytes += uhsp.__bytearray__()\n", "            if uhsp.__class__.__name__ != 'Opaque':\n                _bytes += uhsp.__bytearray__()\n"), 'C01.8')
+M('C01', 'ua-serialiser-first-only', FL, _UA_BA, _UA_BA.replace("        for uhsp in self._unhashed_sp.values():\n", "        for uhsp in list(self._unhashed_sp.values())[:1]:\n"), 'C01.8')
+_SLOTS = "    __slots__ = (\"_subjects\",)\n"
+_INIT_S = "        self._subjects = []\n"
+_ADD_APP = "        self._subjects.append(self._sigsubj(issues, by, signature, subject))\n"
+def _flag(update, merge=True):
+    return [(TY, _INIT_S, _INIT_S + "        self._ok = True\n"), (TY, _BOOL, "        return self._ok"),
+            (TY, _ADD_APP, _ADD_APP + update)] + \
+           ([(TY, _AND, "        self._ok = self._ok and other._ok\n" + _AND)] if merge else [])
+_ASSIGN = "        self._ok = not (issues and issues.causes_signature_verify_to_fail)\n"
+_ACCUM = "        self._ok = self._ok and not (issues and issues.causes_signature_verify_to_fail)\n"
+for _p in ('C01', 'C17'):
+    _r = 'C01.4' if _p == 'C01' else 'C17.2'
+    T(_p, 'twin-running-flag-accumulated', TY, _SLOTS, "    __slots__ = (\"_subjects\", \"_ok\")\n", more=_flag(_ACCUM))
+    M(_p, 'running-flag-assigned', TY, _SLOTS, "    __slots__ = (\"_subjects\", \"_ok\")\n", _r, more=_flag(_ASSIGN))
+    M(_p, 'running-flag-not-merged', TY, _SLOTS, "    __slots__ = (\"_subjects\", \"_ok\")\n", _r, more=_flag(_ACCUM, merge=False))
+    M(_p, 'running-flag-or-accumulated', TY, _SLOTS, "    __slots__ = (\"_subjects\", \"_ok\")\n", _r, more=_flag(_ACCUM.replace("self._ok and not", "self._ok or not")))
+M('C17', 'ni-check-on-claimed-algorithm', PGP, "                    if verified is NotImplemented:\n                        raise NotImplementedError(sig.key_algorithm)\n",
+  "                    if not sig.key_algorithm.can_sign:\n                        raise NotImplementedError(sig.key_algorithm)\n", 'C17.4')
+M('C17', 'ni-compared-with-none', PGP, "                    if verified is NotImplemented:", "                    if verified is None:", 'C17.4')
+M('C17', 'ni-check-dropped', PGP, "                    if verified is NotImplemented:\n                        raise NotImplementedError(sig.key_algorithm)\n", "", 'C17.4')
+
 # ---- further spellings of the same functions (generalisation guards)
 T('C17', 'twin-pred-len-list', CO, _PRED,
   "        hits = [f for f in (SecurityIssues.WrongSig, SecurityIssues.Expired, SecurityIssues.Disabled, SecurityIssues.Invalid, SecurityIssues.NoSelfSignature) if f & self]\n        return len(hits) > 0")
